@@ -58,6 +58,8 @@ pub struct Sim {
     pub out_buf: Vec<u8>,
     pub stdin_written: u64,
     pub stdin_released: u64,
+    /// block_added notifications written but not yet fully readable: (end offset, height)
+    pub pending_notifs: Vec<(u64, u32)>,
     pub ops_done: Vec<Op>,
     pub log: Fnv,
     pub trace: Fnv,
@@ -86,6 +88,7 @@ impl Sim {
         let mut node = SimNode::new(cfg.start_height);
         node.pay_placeholder_preimage = cfg.pay_placeholder;
         node.big_messages = cfg.big_messages;
+        node.sync_warnings = cfg.sync_warnings;
         Sim {
             seed,
             content_seed: mix(seed, 0xC0_47E47),
@@ -122,6 +125,7 @@ impl Sim {
             out_buf: Vec::new(),
             stdin_written: 0,
             stdin_released: 0,
+            pending_notifs: Vec::new(),
             ops_done: Vec::new(),
             log: Fnv::default(),
             trace: Fnv::default(),
@@ -176,7 +180,10 @@ impl Sim {
             }
             ctx.yield_permille = self.w.cfg.f_yield;
             ctx.yield_state = mix(self.seed, 0x71E1D + lt as u64) | 1;
+            ctx.late_permille = self.w.cfg.f_timer_late;
+            ctx.late_state = mix(self.seed, 0x1A7E + lt as u64) | 1;
             tokio::verif_hook::set(Some(seam::yield_coin));
+            tokio::verif_hook::set_late(Some(seam::late_coin));
             seam::install(ctx);
             self.w.lifetime_base_ms = self.w.now_ms;
             self.stats.lifetimes += 1;
@@ -187,6 +194,9 @@ impl Sim {
                 self.wall_last_ns = ctx.wall.last_ns;
                 if ctx.yields > 0 {
                     *self.stats.faults.entry("task-yield-before-lock").or_insert(0) += ctx.yields;
+                }
+                if ctx.lates > 0 {
+                    *self.stats.faults.entry("timer-observed-late").or_insert(0) += ctx.lates;
                 }
                 self.stats.faults.entry("stdout-pending").or_insert(0);
                 *self.stats.faults.get_mut("stdout-pending").unwrap() += ctx.stdout.pending_returns;
@@ -227,6 +237,7 @@ impl Sim {
         self.out_buf.clear();
         self.stdin_written = 0;
         self.stdin_released = 0;
+        self.pending_notifs.clear();
         self.w.told_low = 0;
         self.w.told_all = 0;
         self.w.getinfo_replies_this_lifetime = 0;
@@ -310,6 +321,11 @@ impl Sim {
                 self.stats.fault("multi-op-step");
                 for o in ops {
                     self.execute(o).await;
+                    if let Op::Time { .. } = o {
+                        // The plugin ran while time passed: what it did comes
+                        // before the operations that follow in this step.
+                        self.process_events();
+                    }
                 }
             } else {
                 self.execute(&op).await;
@@ -610,6 +626,7 @@ impl Sim {
                 hash_ix: 0,
                 htlc_hash: pool().hashes[0],
                 hash_len: 32,
+                req_mutation: 0,
                 amount_msat: 1000,
                 expiry_off: 2000,
                 expiry_abs: None,
@@ -766,6 +783,28 @@ impl Sim {
             },
             "forward_to": "0000000000000000000000000000000000000000000000000000000000000000",
         });
+        let mut params = params;
+        // Requests whose fields have the wrong JSON type or are missing
+        // (HtlcSpec::req_mutation): undecodable for the plugin, which must
+        // still answer them.
+        match s.req_mutation {
+            1 => params["htlc"]["id"] = json!(-1),
+            2 => params["htlc"]["id"] = json!("7"),
+            3 => {
+                params["htlc"].as_object_mut().unwrap().remove("id");
+            }
+            4 => params["htlc"]["id"] = json!(1.5),
+            5 => params["htlc"]["short_channel_id"] = json!(5),
+            6 => params["htlc"]["amount_msat"] = json!("1000msat"),
+            7 => params["htlc"]["cltv_expiry"] = json!(1u64 << 33),
+            8 => params["htlc"]["payment_hash"] = json!(5),
+            9 => {
+                params.as_object_mut().unwrap().remove("onion");
+            }
+            10 => params["htlc"] = json!([1, 2, 3]),
+            11 => params["onion"]["payload"] = json!(null),
+            _ => {}
+        }
         let n = self.w.node.next_call;
         self.w.node.next_call += 1;
         // The id as it goes on the wire, and the key replies are matched by
@@ -803,6 +842,17 @@ impl Sim {
     }
 
     fn mark_delivered(&mut self) {
+        let released_now = self.stdin_released;
+        let mut i = 0;
+        while i < self.pending_notifs.len() {
+            if self.pending_notifs[i].0 <= released_now {
+                let h = self.pending_notifs.remove(i).1;
+                self.w.told_low = self.w.told_low.max(h);
+                self.w.told_all = self.w.told_all.max(h);
+            } else {
+                i += 1;
+            }
+        }
         let lt = self.w.node.lifetime;
         let step = self.w.step;
         let now = self.w.now_ms;
@@ -995,6 +1045,9 @@ impl Sim {
                     if unreleased == 0 {
                         s.w.told_low = s.w.told_low.max(height);
                         s.w.told_all = s.w.told_all.max(height);
+                    } else {
+                        // readable only once the reader has been fed up to here
+                        s.pending_notifs.push((s.stdin_written, height));
                     }
                     s.mark_delivered();
                 };
